@@ -27,6 +27,9 @@ type gen struct {
 	w     *world
 	seen  int // ledger.CurrentIndex() the FIRST update of the case will see
 	count int // Netmap: forced snapshot count (0 = drawn)
+	// Alphabet, directed cases (> 0): non-notary mode, ballots none / stale / empty list by turns, caller data that
+	// names the real Netmap and Proxy contracts (or leaves them to the stored address / the NNS record)
+	directed int
 }
 
 // snapshotCounts: stored Netmap snapshot counts. updateSnapshotCount (since 0.15.1) allows 1..256; 10 is only the
@@ -509,21 +512,49 @@ func (g *gen) simple(addrKeys []string, ballots bool) ([]chainx.KV, [][][]byte) 
 
 // alphabet: the `notary = true` path is generated only where it FAULTs before the GAS distribution
 // (pending vote or a malformed Proxy address); the distribution itself is outside the model.
+// alphabet: the storage the deployment wrote (Netmap and Proxy addresses, name, index, threshold) plus the non-notary
+// leftovers: no flag, a false flag, or - most of the time - a true flag without ballots, with stale ballots or with a
+// pending one.
 func (g *gen) alphabet() ([]chainx.KV, [][][]byte) {
 	w := g.w
 	s := fromScan(w.scan())
-	if w.v < 17000 {
-		switch g.rng.IntN(4) {
-		case 0:
+	ballot := func(gap int) stackitem.Item {
+		return stackitem.NewStruct([]stackitem.Item{bs(g.bytesN(32)), stackitem.NewArray(nil), in(int64(g.seen - gap))})
+	}
+	if g.directed > 0 {
+		s["notary"] = []byte{1}
+		switch g.directed % 3 {
 		case 1:
-			s["notary"] = []byte{0}
+			s["ballots"] = ser(stackitem.NewArray([]stackitem.Item{ballot(21), ballot(300)}))
 		case 2:
+			s["ballots"] = ser(stackitem.NewArray(nil))
+		}
+		return s.kvs(), nil
+	}
+	if w.v < 17000 {
+		switch r := g.rng.IntN(12); {
+		case r < 1:
+		case r < 2:
+			s["notary"] = []byte{0}
+		case r < 3:
 			s["notary"] = []byte{}
 		default:
 			s["notary"] = []byte{1}
-			s["ballots"] = ser(stackitem.NewArray([]stackitem.Item{stackitem.NewStruct([]stackitem.Item{bs(g.bytesN(32)),
-				stackitem.NewArray(nil), in(int64(g.seen - g.rng.IntN(20)))})}))
+			switch g.rng.IntN(6) {
+			case 0, 1:
+			case 2:
+				s["ballots"] = ser(stackitem.NewArray(nil))
+			case 3:
+				s["ballots"] = ser(stackitem.NewArray([]stackitem.Item{ballot(hx.Pick(g.rng, []int{21, 22, 500}))}))
+			case 4:
+				s["ballots"] = ser(stackitem.NewArray([]stackitem.Item{ballot(21), ballot(hx.Pick(g.rng, []int{0, 1, 19, 20}))}))
+			default:
+				s["ballots"] = ser(stackitem.NewArray([]stackitem.Item{ballot(hx.Pick(g.rng, []int{0, 20, 21}))}))
+			}
 		}
+	}
+	if !w.wf && g.rng.IntN(3) == 0 {
+		delete(s, "netmapScriptHash")
 	}
 	return s.kvs(), nil
 }
@@ -611,16 +642,48 @@ func (g *gen) wrongSigner(cs caseSpec) string {
 
 func (g *gen) data(cs caseSpec) string {
 	if cs.kind == "alphabet" {
-		good := "A(f;b" + hx.Hex(g.bytesN(20)) + ";b" + hx.Hex(g.bytesN(20)) + ";b617a)"
-		switch g.rng.IntN(8) {
+		a := g.w.alpha
+		nm := "b" + hx.Hex(a.nm.BytesBE())
+		if g.directed > 0 {
+			proxy := "b" + hx.Hex(a.proxy.BytesBE())
+			if g.directed%2 == 0 {
+				nm = "b-"
+			}
+			if g.directed%4 >= 2 {
+				proxy = "b-"
+			}
+			return "A(f;" + nm + ";" + proxy + ";b617a)"
+		}
+		switch r := g.rng.IntN(10); {
+		case r < 3:
+			nm = "b-" // the stored address
+		case r < 4:
+			nm = "b" + hx.Hex(g.bytesN(20)) // no such contract
+		case r < 5 && !g.w.wf:
+			nm = "b0102"
+		}
+		proxy := "b" + hx.Hex(a.proxy.BytesBE())
+		switch r := g.rng.IntN(20); {
+		case r < 4:
+			proxy = "b-" // the NNS record, if any
+		case r < 7:
+			proxy = "b" + hx.Hex(g.bytesN(20)) // a plain account
+		case r < 8:
+			proxy = nm // a contract that does not take GAS (or nothing at all)
+		case r < 9:
+			proxy = "b" + hx.Hex(g.w.h.BytesBE()) // the Alphabet contract itself
+		case r < 10:
+			proxy = "b" + hx.Hex(a.notary.BytesBE()) // Notary refuses a payment without deposit data
+		case r < 11:
+			proxy = "b0102"
+		}
+		switch g.rng.IntN(12) {
 		case 0:
 			return "n"
 		case 1:
-			return "A(f;b" + hx.Hex(g.bytesN(20)) + ";b0102;b617a)"
-		case 2:
 			return "A(f;b-)" // too short: args[3] does not exist
 		}
-		return good
+		return "A(f;" + nm + ";" + proxy + ";b617a)"
 	}
 	switch g.rng.IntN(12) {
 	case 0:
@@ -646,6 +709,12 @@ func (g *gen) updateLine(sig, data, nef string, cs caseSpec) string {
 // roleFor: the designated NeoFS Alphabet of a main-chain case. Sizes 3, 5 and 7 (where n/2+1 and 2n/3+1 differ)
 // are preferred; sometimes a proper subset of the chain's committee, sometimes nobody.
 func roleFor(rng *rand.Rand, kind string, n int) []int {
+	if kind == "alphabet" { // the Inner Ring the GAS is distributed to
+		if rng.IntN(6) == 0 {
+			return nil
+		}
+		return ids(n)
+	}
 	if kind != "neofs" && kind != "processing" {
 		return nil
 	}
@@ -671,7 +740,12 @@ func runCase(t testing.TB, run *hx.Run, sc *chainx.Scratch, cs caseSpec, rng *ra
 
 func runCaseWith(t testing.TB, run *hx.Run, sc *chainx.Scratch, cs caseSpec, rng *rand.Rand, fixed []chainx.KV, fixedQ [][][]byte, snapCount int) {
 	w := startCase(t, run, sc, cs)
-	g := &gen{rng: rng, w: w, count: snapCount}
+	g := &gen{rng: rng, w: w}
+	if snapCount > 0 {
+		g.count = snapCount
+	} else if snapCount < 0 {
+		g.directed = -snapCount
+	}
 	// the sequence of the case is fixed before the storage is generated, so that the ballots can be
 	// placed relative to the height the first update that can pass the witness test will see
 	pre := rng.IntN(3) == 0 // an unauthorised attempt first
@@ -747,16 +821,47 @@ func netmapCountCases(t testing.TB, run *hx.Run, sc *chainx.Scratch, ci int) int
 	return ci
 }
 
+// alphaGas: GAS on the Alphabet contract: nothing, one unit (3/4 of it is nothing), a few units, just under 1 GAS
+// (odd; the Notary share is below the minimal first deposit), 50 GAS + 1 unit, 1000 GAS (the 20 GAS cap of the
+// deposits applies for few nodes), 1 234 567.89012345 GAS
+var alphaGas = []string{"0", "1", "3", "99999999", "5000000001", "100000000000", "123456789012345"}
+
+func alphaAttrsFor(rng *rand.Rand, cs *caseSpec) {
+	cs.gas = hx.Pick(rng, alphaGas)
+	cs.sn = rng.IntN(4)
+	cs.short = !cs.wf && cs.sn > 0 && rng.IntN(3) == 0
+	cs.nnsProxy = rng.IntN(3) != 0
+}
+
+// alphabetGasCases: one in-quantifier non-notary Alphabet case per balance, committee sizes 1/4/7, in every tier,
+// shard and seed.
+func alphabetGasCases(t testing.TB, run *hx.Run, sc *chainx.Scratch, ci int) int {
+	if common.PrevVersion >= 17000 {
+		return ci
+	}
+	for i, gas := range alphaGas {
+		ci++
+		rng := run.Rand(3_000_000 + ci)
+		cs := caseSpec{id: fmt.Sprintf("s%d.%d.gas%s", run.Seed, run.Shard, gas), kind: "alphabet",
+			n: []int{1, 4, 7}[i%3], v: hx.Pick(rng, []int{common.PrevVersion, 16999}), wf: true,
+			gas: gas, sn: (i + int(run.Seed)) % 4, nnsProxy: true}
+		cs.role = ids(cs.n)
+		runCaseWith(t, run, sc, cs, rng, nil, nil, -(i + 1))
+	}
+	return ci
+}
+
 func generate(t testing.TB, run *hx.Run, sc *chainx.Scratch) {
 	ci := 0
 	if run.Shard == 0 {
 		ci = dumpCases(t, run, sc)
 	}
 	ci = netmapCountCases(t, run, sc, ci)
+	ci = alphabetGasCases(t, run, sc, ci)
 	for _, k := range allKinds {
 		reps := 1
-		if k == "neofs" || k == "processing" {
-			reps = 2 // signer sets over the designated NeoFS Alphabet need more than one draw
+		if k == "neofs" || k == "processing" || k == "alphabet" {
+			reps = 2 // signer sets over the designated NeoFS Alphabet / GAS balances need more than one draw
 		}
 		if mainKinds[k] {
 			reps = 2
@@ -776,7 +881,11 @@ func generate(t testing.TB, run *hx.Run, sc *chainx.Scratch) {
 					n = hx.Pick(rng, []int{3, 4, 5, 7, 7})
 				}
 				cs := caseSpec{id: fmt.Sprintf("s%d.%d.%d", run.Seed, run.Shard, ci), kind: k, n: n, v: v, wf: ci%4 != 3}
-				cs.role = roleFor(rng, k, n)
+				if k == "alphabet" {
+					cs.n = hx.Pick(rng, []int{1, 4, 7})
+					alphaAttrsFor(rng, &cs)
+				}
+				cs.role = roleFor(rng, k, cs.n)
 				runCase(t, run, sc, cs, rng, nil, nil)
 			}
 		}
